@@ -31,6 +31,7 @@ type Prog struct {
 	RepoDir     string
 	Thorough    bool
 	declOf      map[*types.Func]*ast.FuncDecl
+	nFolded     int
 	fileOf      map[*ast.File]*packages.Package
 	nFuncs      int
 	nInlined    int
@@ -146,6 +147,7 @@ func Load(thorough bool) (*Prog, error) {
 	}
 	gProg = p
 	// after SSA is built: calls to functions new to the rules become inline frames in the syntax (see inline.go)
+	p.nFolded = foldProbeLoops(p)
 	p.nInlined = virtualInline(p)
 	return p, nil
 }
@@ -192,7 +194,18 @@ func (p *Prog) Func(rel, recv, name string) *FuncInfo {
 		}
 	}
 	if obj == nil {
-		return nil
+		// moved: a function of this name that is new to the rules, on another receiver (or none) of the same
+		// package — when there is exactly one, it is the anchor under its new receiver
+		var cands []*types.Func
+		for o := range p.declOf {
+			if o.Pkg() == pk.Types && o.Name() == name && isNewFunc(o) {
+				cands = append(cands, o)
+			}
+		}
+		if len(cands) != 1 {
+			return nil
+		}
+		obj = cands[0]
 	}
 	return p.infoFor(obj)
 }
